@@ -533,14 +533,20 @@ def eval_assembly(ctx, exe, mexe, cases, stats):
                   "KLLEW %d %d %d 0x0p+0 %s %s %s" % (N, D, k, fhex(ts), flat(c["X"]), nbflat(c["nb"])),
                   "KLLEW %d %d %d 0x0p+0 %s %s %s" % (N, D, k, fhex(ts), flat(Xp), nbflat(nbp)),
                   "KLTSAW %d %d %d %d 0x0p+0 %s %s" % (N, D, k, d, flat(c["X"]), nbflat(c["nb"])),
-                  "KLTSAW %d %d %d %d 0x0p+0 %s %s" % (N, D, k, d, flat(Xp), nbflat(nbp))]
+                  "KLTSAW %d %d %d %d 0x0p+0 %s %s" % (N, D, k, d, flat(Xp), nbflat(nbp)),
+                  "DMX %d %s %s" % (N, float(c["width"]).hex(), tflat(c["T"])),
+                  "DMX %d %s %s" % (N, float(c["width"]).hex(), tflat(Tp)),
+                  "HLLEW %d %d %d 1 %s %s" % (N, D, k, flat(c["X"]), nbflat(c["nb"])),
+                  "HLLEW %d %d %d 1 %s %s" % (N, D, k, flat(Xp), nbflat(nbp))]
     impl = run_impl(ctx, exe, lines)
     evals = 0
     mlines, mmap = [], []
     for ci, c in enumerate(cases):
-        res = impl[6 * ci:6 * ci + 6]
+        res = impl[10 * ci:10 * ci + 10]
+        hl = res[8:10]
+        res = res[:8]
         jc = case_to_json(c)
-        bad = [r for r in res if crashed(r)]
+        bad = [r for r in res if crashed(r)] + ([r for r in hl if crashed(r)] if c["k"] >= 3 else [])
         if bad:
             ctx.violation(jc, "an assembly routine aborts on well-formed neighbour lists: " + str(bad[0]["crash"])[:400])
             continue
@@ -553,22 +559,32 @@ def eval_assembly(ctx, exe, mexe, cases, stats):
         Dg, Dgp = float_table(tabs[0], "D"), float_table(tabs[1], "D")
         W, Wp = float_table(tabs[2], "M"), float_table(tabs[3], "M")
         G, Gp = float_table(tabs[4], "M"), float_table(tabs[5], "M")
+        Dm_, Dmp = float_table(tabs[6], "M"), float_table(tabs[7], "M")
+        Hm = Hmp = None
+        if c["k"] >= 3 and all(r and r[0] == "OK" for r in hl):
+            ht = [parse_impl_tables(r[1:]) for r in hl]
+            if all(t is not None for t in ht):
+                Hm, Hmp = float_table(ht[0], "M"), float_table(ht[1], "M")
         def shp(M, r, cc):
             return M is not None and len(M) == r and all(len(row) == cc for row in M)
         if not (shp(L, N, N) and shp(Lp, N, N) and shp(Dg, N, 1) and shp(Dgp, N, 1) and shp(W, N, N)
-                and shp(Wp, N, N) and shp(G, N, N) and shp(Gp, N, N)):
+                and shp(Wp, N, N) and shp(G, N, N) and shp(Gp, N, N) and shp(Dm_, N, N) and shp(Dmp, N, N)
+                and (Hm is None or (shp(Hm, N, N) and shp(Hmp, N, N)))):
             ctx.violation(jc, "an assembly routine returned non-finite entries / a wrong shape on finite input")
             continue
         def pact(M):
             return [[M[ql[i]][ql[j]] for j in range(N)] for i in range(N)]
-        for name, A, Ap, tol in (("compute_laplacian L", L, Lp, 1e-12), ("linear_weight_matrix", W, Wp, 1e-8),
-                                 ("tangent_weight_matrix", G, Gp, 1e-7)):
+        rels = [("compute_laplacian L", L, Lp, 1e-12), ("linear_weight_matrix", W, Wp, 1e-8),
+                ("compute_diffusion_matrix", Dm_, Dmp, 1e-12), ("tangent_weight_matrix", G, Gp, 1e-7)]
+        if Hm is not None:
+            rels.append(("hessian_weight_matrix", Hm, Hmp, 1e-7))
+        for name, A, Ap, tol in rels:
             evals += 1
             sc = max(1.0, max(abs(v) for r in A for v in r))
             e = max_abs_diff(pact(A), Ap) / sc
             stats["assembly_max_err"] = max(stats.get("assembly_max_err", 0.0), e if e < tol else 0.0)
             if e > tol:
-                if name == "tangent_weight_matrix":
+                if name in ("tangent_weight_matrix", "hessian_weight_matrix"):
                     # the local projector is only determined when the local spectrum has a gap: probe
                     stats["kltsa_gap_skipped"] = stats.get("kltsa_gap_skipped", 0) + 1
                     continue
@@ -1090,6 +1106,15 @@ def check_inventory(ctx, tres):
 
 
 # --------------------------------------------------------------------------------------------- main
+# compile-time matters more than run time here (the data are tiny): the front end dominates, -O0 saves
+# a third; the thorough tier runs 10x more embeds and takes -O1
+ST_FLAGS = ["-O0", "-g0"]
+
+
+def emb_flags(ctx):
+    return ["-O0" if ctx.quick else "-O1", "-UNDEBUG", "-D_GLIBCXX_ASSERTIONS"]
+
+
 def budgets(ctx, factor=1):
     if ctx.quick:
         return {"exact": 240 * factor, "assembly": 40 * factor, "meta": 400 * factor, "history": 40 * factor,
@@ -1147,14 +1172,13 @@ def run(ctx):
 
     def build_emb():
         try:
-            builds["emb"] = ctx.cpp("harness/c12_emb.cpp", name="c12_emb", sanitize=False,
-                                    extra=["-O1", "-UNDEBUG", "-D_GLIBCXX_ASSERTIONS"])
+            builds["emb"] = ctx.cpp("harness/c12_emb.cpp", name="c12_emb", sanitize=False, extra=emb_flags(ctx))
         except vlib.BuildError as ex:
             builds["emb_error"] = str(ex)
 
     def build_stages():
         try:
-            builds["st"] = ctx.cpp("harness/c12.cpp", name="c12")
+            builds["st"] = ctx.cpp("harness/c12.cpp", name="c12", extra=ST_FLAGS)
         except vlib.BuildError as ex:
             builds["st_error"] = str(ex)
 
@@ -1259,15 +1283,14 @@ def replay(ctx, case):
     s = case.get("stream")
     stats, hist = {}, {}
     if s in ("exact", "assembly"):
-        exe = ctx.cpp("harness/c12.cpp", name="c12")
+        exe = ctx.cpp("harness/c12.cpp", name="c12", extra=ST_FLAGS)
         mexe = ctx.extract()
         if s == "exact":
             eval_exact(ctx, exe, mexe, [case_from_json(case)], stats)
         else:
             eval_assembly(ctx, exe, mexe, [case_from_json(case)], stats)
     elif s in ("meta", "history", "nbr"):
-        eexe = ctx.cpp("harness/c12_emb.cpp", name="c12_emb", sanitize=False,
-                       extra=["-O1", "-UNDEBUG", "-D_GLIBCXX_ASSERTIONS"])
+        eexe = ctx.cpp("harness/c12_emb.cpp", name="c12_emb", sanitize=False, extra=emb_flags(ctx))
         if s == "meta":
             eval_meta(ctx, eexe, [case], stats, hist)
         elif s == "nbr":
